@@ -161,5 +161,6 @@ mut('benign-prob-times-reciprocal', ['C03', 'C06', 'C13', 'C19', 'C01'], CP, "pr
 mut('benign-print-via-write', ['C09', 'C12', 'C16'], G, "                print(guess)", "                sys.stdout.write(guess + '\\n')", benign=True)
 mut('benign-queue-le', ALLG[:5], Q, "        return self.pt_item['prob'] >= other.pt_item['prob']", "        return not (self.pt_item['prob'] < other.pt_item['prob'])", benign=True)
 mut('revert-F-C05b', 'C05', DR + 'keyboard_walk.py', "if sys.getrecursionlimit() < len(password) + 1000:", "if False:", desc='only the thorough tier generates the 1000-walk strings: run with --tier thorough')
+mut('revert-F-C20', 'C20', ER, "        elif total_length >= min_length and total_length + extra_length <= max_length:", "        elif total_length >= min_length and total_length <= max_length:")
 json.dump(M, open(os.path.join(os.path.dirname(os.path.abspath(__file__)), 'mutants.json'), 'w'), indent=1)
 print(len(M), 'mutants')
